@@ -70,9 +70,9 @@ func (s *MapKeyIndex[T]) Contains(key []byte) (bool, error) {
 	return true, nil
 }
 func (s *MapKeyIndex[T]) Get(key []byte) (IndexVal, error) {
-	// a key the mapper cannot map cannot have been loaded either: it is absent, not a reason to panic
+	// a key the mapper cannot map has no slot in the map (see Load): it is searched for in the slice, not a reason to panic
 	if m, ok := s.mapper.(boundedKeyMapper); ok && len(key) > m.MaxKeyLength() {
-		return IndexVal{}, skiplist.NotFound
+		return s.SliceKeyIndex.Get(key)
 	}
 
 	i, found := s.index[s.mapper.MapBytes(key)]
@@ -135,8 +135,11 @@ func (s *MapKeyIndexLoader[T]) Load(indexPath string, metadata *proto.MetaData) 
 			return nil, fmt.Errorf("error while reading index records of sstable in '%s': %w", indexPath, err)
 		}
 
-		kBytes := s.Mapper.MapBytes(record.Key)
-		smap[kBytes] = len(sx)
+		// keys that are longer than what the mapper takes are kept in the slice only, Get searches them there
+		if m, ok := s.Mapper.(boundedKeyMapper); !ok || len(record.Key) <= m.MaxKeyLength() {
+			kBytes := s.Mapper.MapBytes(record.Key)
+			smap[kBytes] = len(sx)
+		}
 		sx = append(sx, sliceKey{IndexVal{Offset: record.ValueOffset, Checksum: record.Checksum}, record.Key})
 
 		i++
